@@ -1,5 +1,1237 @@
 package control
 
-import "testing"
+// C03 engine "kernpath": the TC programs of the working tree's tproxy.c run
+// natively over frames of a small set of flows, with the routing program,
+// domain bitmaps, connectivity bits and PARAM block installed by the real Go
+// code, a per-flow reference model written from the property text, every frame
+// executed twice from the same pre-state (direct packet access vs. forced
+// byte-load path), and the hand-over read back through the real
+// controlPlaneCore.RetrieveRoutingResult.
 
-func TestSimC03(t *testing.T) { t.Skip("not built yet") }
+import (
+	"bytes"
+	"encoding/binary"
+	"fmt"
+	"net/netip"
+	"testing"
+	"time"
+
+	"github.com/daeuniverse/dae/common/consts"
+	"github.com/daeuniverse/dae/component/outbound/dialer"
+	verifsim "github.com/daeuniverse/dae/internal/verifsim"
+	"golang.org/x/sys/unix"
+)
+
+func TestSimC03(t *testing.T) {
+	verifsim.Main(t, verifsim.Engine{
+		Prop: "C03", Name: "kernpath", NoBubble: true, Scenario: c03Scenario,
+		Real: []string{
+			"control/kern/tproxy.c: tproxy_{lan,wan}_{ingress,egress}_l{2,3}, tproxy_dae0peer_ingress, tproxy_dae0_ingress and the cgroup programs filling cookie_pid_map, compiled natively (clang, ASan+UBSan) from the working tree; both parse_transport_fast and parse_transport_slow",
+			"controlPlaneCore.RetrieveRoutingResult (conn_state_map stage and routing_handoff_map stage incl. routingHandoffExpired against the simulated clock) over real kernel maps filled with the C-computed key/value bytes; bpfTuplesKeyFromAddrPorts",
+			"outboundAliveChangeCallback + outboundConnectivityMapKey; Retain/ReleaseUdpConnStateTuples; the routing install path of C02 (builder, encoders, BuildKernspace, BatchUpdateDomainRouting); bpfDaeParam bytes as the PARAM block",
+		},
+		Stubs: []string{
+			"the kernel: maps, clock, skb memory (linear window + guard page), helpers, socket lookups and process identity are simulated (kernsim/driver.c)",
+			"TC attach order, checksum offload, bpf_redirect(_peer) semantics beyond the recorded target, the verifier",
+			"PARAM is written from a bpfDaeParam value, not through fullLoadBpfObjects' anonymous literal (needs netns/netlink)",
+			"when bpf(2) is unavailable (probe kern.fallback-decode) RetrieveRoutingResult is replaced by a two-step lookup decoding the C-side bytes with the Go structs",
+		},
+		Rule: "one run = routing program (<=6 rules) + connectivity bits + 2-5 flows (LAN/WAN, TCP/UDP, v4/v6, L2/L3, dae-owned, WAN-originated, DNS) with interleaved packet scripts, time advances, reloads, binding/connectivity changes, janitor deletes and map faults; non-trivial = at least one packet changed datapath state; signature = sequence of (event kind, flow class, verdict class)",
+	})
+}
+
+const (
+	c03LanIf  = 3
+	c03WanIf  = 2
+	c03Dae0If = 7
+	c03DaePid = 4242
+)
+
+type c03Flow struct {
+	id       int
+	kind     int // 0 LAN ingress, 1 WAN egress, 2 inbound to local service (reply on wan_egress), 3 inbound to LAN service (reply on lan_ingress)
+	l2       bool
+	p        refPacket // forward direction as seen by the hook that decides (LAN ingress / WAN egress / the REPLY for inbound kinds)
+	ext      []uint8   // IPv6 extension headers
+	extLen   []int
+	ipOpts   int // IPv4 option bytes (multiple of 4)
+	daeOwned int // 0 no, 1 by pid, 2 by socket mark
+	cookie   uint64
+	pid      uint32
+	udpSock  uint8 // socket-lookup answer for LAN UDP (0 none, 1 somebody's socket, 2 dae's own)
+	script   []c03Step
+	pos      int
+
+	tracked  bool
+	decision refDecision
+	closing  bool
+	last     uint64
+	tainted  bool
+	originIn bool // tracked as opened from the WAN side
+	shape    string // tag of a recorded defect shape that affects this flow's decision
+	free     bool // statement silent for this flow (local socket present etc.)
+}
+
+type c03Step struct {
+	syn, ack, fin, rst bool
+	reverse            bool // frame of the other direction (inbound kinds: the inbound frame)
+	pad                int
+}
+
+type c03State struct {
+	s      *verifsim.Sim
+	w      *ksWorld
+	outs   *ksOutTable
+	gen    *ksGeneration
+	binds  []ksBinding
+	param  bpfDaeParam
+	alive  map[[3]int]bool // outbound, domain(0 tcp,1 dns-udp,2 data-udp), family(0 v4, 1 v6)
+	flows  []*c03Flow
+	now    uint64
+	t0     uint64
+	faulty bool
+	changed bool
+	gwMac  [6]byte
+}
+
+func c03Scenario(s *verifsim.Sim) {
+	T := s.T
+	outs := genOutbounds(T)
+	globalNextLpmIndex.Store(uint32([]int{0, consts.MaxMatchSetLen - 2}[T.Choose(2)]))
+	w := newKsWorld(s, ksWorldOpts{})
+	defer w.Close()
+	w.lastRing = globalNextLpmIndex.Load()
+	st := &c03State{s: s, w: w, outs: outs, alive: map[[3]int]bool{}, gwMac: [6]byte{0x02, 0, 0, 0, 0, 0xfe}}
+	st.now = uint64(1000+T.Choose(5000)) * 1e9
+	st.t0 = st.now
+	if !w.SetTime(st.now) {
+		return
+	}
+	// PARAM block
+	st.param = bpfDaeParam{TproxyPort: 12345, ControlPlanePid: c03DaePid, Dae0Ifindex: c03Dae0If, DaeNetnsId: 99,
+		Dae0peerMac: [6]uint8{0x02, 0xda, 0xe0, 0, 0, 1}, UseRedirectPeer: uint8(T.Choose(2)), HasBpfGetCurrentTask: uint8(T.Choose(2)),
+		DaeSocketMark: []uint32{0x8a, 0, 0x4000}[T.Choose(3)]}
+	if rc, err := w.c.SetParam(ksNative(st.param)); w.simErr(err) {
+		return
+	} else if rc != 0 {
+		s.Failf("param-layout", "the Go bpfDaeParam encoding has %d bytes, the C program's struct dae_param %d", len(ksNative(st.param)), w.c.ParamSize)
+		return
+	}
+	// first generation
+	if !st.install(genRuleText(T, outs, 6), true) {
+		return
+	}
+	// connectivity bits: everything set explicitly once (array starts at 0 = down)
+	for _, g := range outs.groups {
+		id := int(outs.name2id[g])
+		for dom := 0; dom < 3; dom++ {
+			for fam := 0; fam < 2; fam++ {
+				st.setAlive(id, dom, fam, !T.Chance(1, 5), true)
+			}
+		}
+	}
+	for _, id := range []int{0, 1} {
+		for dom := 0; dom < 3; dom++ {
+			for fam := 0; fam < 2; fam++ {
+				st.setAlive(id, dom, fam, true, true)
+			}
+		}
+	}
+	if !w.MirrorConnectivity() {
+		return
+	}
+	// faults
+	switch T.Pick(10, 2, 2, 1) {
+	case 1:
+		st.faulty = true
+		if w.simErr(w.c.SetMaxEntries(w.c.Maps["conn_state_map"], uint32(1+T.Choose(3)))) {
+			return
+		}
+	case 2:
+		st.faulty = true
+		if w.simErr(w.c.SetFault(w.c.Maps["conn_state_map"], int32(T.Choose(4)), int32(unix.E2BIG), T.Chance(1, 3))) {
+			return
+		}
+	case 3:
+		if ksSkip("lanhandoff") {
+			break
+		}
+		st.faulty = true
+		if w.simErr(w.c.SetFault(w.c.Maps["routing_handoff_map"], int32(T.Choose(3)), int32(unix.ENOMEM), T.Chance(1, 2))) {
+			return
+		}
+	}
+	// flows
+	nf := 2 + T.Pick(3, 3, 2, 1)
+	for i := 0; i < nf; i++ {
+		f := st.genFlow(T, i)
+		st.flows = append(st.flows, f)
+		if f.kind == 1 && f.daeOwned != 2 && f.cookie != 0 {
+			if !st.registerProcess(f) {
+				return
+			}
+		}
+	}
+	// interleaving
+	for step := 0; step < 120 && !s.Failed(); step++ {
+		var live []*c03Flow
+		for _, f := range st.flows {
+			if f.pos < len(f.script) {
+				live = append(live, f)
+			}
+		}
+		if len(live) == 0 {
+			break
+		}
+		ev := T.Pick(16, 4, 1, 1, 1, 1, 1)
+		if (ev == 2 || ev == 3) && st.hasWanUdpDirect() && (!T.Chance(1, 40) || ksSkip("wanudpdirect")) {
+			// changing rules/bindings under a tracked WAN UDP flow that was decided plain direct is
+			// rare on purpose: recorded defect "wan-udp-direct-recomputed"
+			ev = 1
+		}
+		switch ev {
+		case 0:
+			f := live[T.Choose(len(live))]
+			st.sendNext(f)
+		case 1:
+			st.advance(T)
+		case 2:
+			if st.install(genRuleText(T, outs, 6), false) {
+				s.SeqStep("reload", "", true)
+				st.changed = true
+			}
+		case 3:
+			st.binds = nil
+			st.rebind(T)
+			s.SeqStep("rebind", "", true)
+			st.changed = true
+		case 4:
+			if len(outs.groups) > 0 {
+				id := int(outs.name2id[outs.groups[T.Choose(len(outs.groups))]])
+				dom, fam := T.Choose(3), T.Choose(2)
+				st.setAlive(id, dom, fam, !st.alive[[3]int{id, dom, fam}], false)
+				if !w.MirrorConnectivity() {
+					return
+				}
+				s.SeqStep("health", fmt.Sprintf("o%d d%d f%d", id, dom, fam), true)
+			}
+		case 5:
+			st.janitor(T)
+		case 6:
+			st.illegalFrame(T)
+		}
+	}
+	st.gen.core.Close()
+	s.SeqSimTime = time.Duration(st.now - st.t0)
+}
+
+// route asks the written rules about the flow's forward packet with the domain currently bound to its destination.
+func (st *c03State) route(f *c03Flow) refDecision {
+	f.p.domain = ""
+	for _, b := range st.binds {
+		for _, a := range b.addrs {
+			if a == f.p.dst {
+				f.p.domain = b.name
+			}
+		}
+	}
+	d := st.gen.ref.route(&f.p)
+	// the kernel program is compiled from the optimised rule list: if the recorded optimiser defect
+	// (C02 "negated-singleton-merge") changes this very decision, violations of this flow carry its tag
+	f.shape = ""
+	if v := st.gen.ref.variantNegMerge().route(&f.p); !sameDecision(v, d) {
+		f.shape = "/negated-singleton-merge"
+	}
+	return d
+}
+
+func (st *c03State) hasWanUdpDirect() bool {
+	for _, f := range st.flows {
+		if f.kind == 1 && !f.p.tcp && f.tracked && f.pos < len(f.script) && f.daeOwned == 0 &&
+			f.decision.outbound == uint8(consts.OutboundDirect) && f.decision.mark == 0 && !f.decision.must {
+			return true
+		}
+	}
+	return false
+}
+
+// ---- control-plane actions ----
+
+func (st *c03State) install(text string, first bool) bool {
+	s, w := st.s, st.w
+	gen, builder, err := buildGeneration(w, text, st.outs)
+	if err != nil {
+		ksFatal("generated rule text rejected: %v\n%s", err, text)
+	}
+	s.Notef("rules:\n%s", text)
+	idx, err := w.BuildKernspace(gen)
+	if s.Failed() {
+		return false
+	}
+	if err != nil {
+		s.Failf("install-error", "BuildKernspace failed without an injected fault: %v\n%s", err, text)
+		return false
+	}
+	gen.core.lpmTrieIndices = idx
+	gen.matcher, err = builder.BuildUserspace()
+	if err != nil {
+		ksFatal("BuildUserspace: %v", err)
+	}
+	if st.gen != nil {
+		gen.core.InheritLpmIndices(st.gen.core.EjectLpmIndices())
+		st.gen.core.Close()
+		if !w.AfterSlotOps() {
+			return false
+		}
+	}
+	st.gen = gen
+	st.rebind(s.T)
+	return !s.Failed()
+}
+
+func (st *c03State) rebind(T *verifsim.Tape) {
+	c := &c02State{s: st.s, w: st.w, outs: st.outs, cur: st.gen, binds: st.binds}
+	c.rebind(T)
+	st.binds = c.binds
+}
+
+func (st *c03State) netType(dom, fam int) *dialer.NetworkType {
+	nt := &dialer.NetworkType{L4Proto: consts.L4ProtoStr_TCP, IpVersion: consts.IpVersionStr_4}
+	if fam == 1 {
+		nt.IpVersion = consts.IpVersionStr_6
+	}
+	switch dom {
+	case 1:
+		nt.L4Proto, nt.IsDns, nt.UdpHealthDomain = consts.L4ProtoStr_UDP, true, dialer.UdpHealthDomainDns
+	case 2:
+		nt.L4Proto, nt.UdpHealthDomain = consts.L4ProtoStr_UDP, dialer.UdpHealthDomainData
+	}
+	return nt
+}
+
+func (st *c03State) setAlive(id, dom, fam int, alive, isInit bool) {
+	st.alive[[3]int{id, dom, fam}] = alive
+	nt := st.netType(dom, fam)
+	if st.w.real {
+		st.gen.core.outboundAliveChangeCallback(uint8(id), false)(alive, nt, isInit)
+		return
+	}
+	// fallback: the callback's map write needs a kernel; the key constructor is still the real one
+	v := uint32(0)
+	if alive {
+		v = 1
+	}
+	st.w.c.MapPut(st.w.c.Maps["outbound_connectivity_map"], u32key(outboundConnectivityMapKey(uint8(id), nt)), u32key(v))
+}
+
+func (st *c03State) registerProcess(f *c03Flow) bool {
+	progName := "tproxy_wan_cg_sock_create"
+	switch {
+	case f.p.tcp && !f.p.v6():
+		progName = []string{"tproxy_wan_cg_sock_create", "tproxy_wan_cg_connect4"}[st.s.T.Choose(2)]
+	case f.p.tcp:
+		progName = []string{"tproxy_wan_cg_sock_create", "tproxy_wan_cg_connect6"}[st.s.T.Choose(2)]
+	case !f.p.v6():
+		progName = []string{"tproxy_wan_cg_sock_create", "tproxy_wan_cg_sendmsg4"}[st.s.T.Choose(2)]
+	default:
+		progName = []string{"tproxy_wan_cg_sock_create", "tproxy_wan_cg_sendmsg6"}[st.s.T.Choose(2)]
+	}
+	prog := st.w.c.Progs[progName]
+	if prog == nil {
+		ksFatal("program %s not found in tproxy.c", progName)
+	}
+	var comm [16]byte
+	name := f.p.pname
+	if f.daeOwned == 1 {
+		name = "dae"
+	}
+	copy(comm[:15], name)
+	_, _, err := st.w.c.RunCgroup(prog, f.cookie, uint64(f.pid)<<32|uint64(f.pid+1), comm, "/usr/bin/"+name+" --opt /x/y", false)
+	return !st.w.simErr(err)
+}
+
+func (st *c03State) advance(T *verifsim.Tape) {
+	ladder := []uint64{100e6, 500e6, 1500e6, 3e9, 7e9, 13e9, 60e9, 110e9, 125e9, 300e9}
+	d := ladder[T.Pick(4, 4, 3, 3, 2, 3, 2, 2, 3, 1)]
+	// stay >= 2 s away from every tracked flow's idle boundary
+	for tries := 0; tries < 6; tries++ {
+		bad := false
+		for _, f := range st.flows {
+			if !f.tracked {
+				continue
+			}
+			for _, to := range []uint64{10e9, 120e9} {
+				gap := st.now + d - f.last
+				if gap+2e9 > to && gap < to+2e9 {
+					bad = true
+				}
+			}
+		}
+		if !bad {
+			break
+		}
+		d += 4100e6
+	}
+	st.now += d
+	st.w.SetTime(st.now)
+	st.s.SeqSimTime = time.Duration(st.now - st.t0)
+	st.s.SeqStep("time", fmt.Sprintf("+%v", time.Duration(d)), false)
+}
+
+func (st *c03State) tuple(f *c03Flow) (netip.AddrPort, netip.AddrPort, uint8) {
+	proto := uint8(unix.IPPROTO_UDP)
+	if f.p.tcp {
+		proto = unix.IPPROTO_TCP
+	}
+	return netip.AddrPortFrom(f.p.src, f.p.sport), netip.AddrPortFrom(f.p.dst, f.p.dport), proto
+}
+
+func (st *c03State) janitor(T *verifsim.Tape) {
+	var cands []*c03Flow
+	for _, f := range st.flows {
+		if !f.p.tcp && f.kind <= 1 && f.p.dport != 53 && f.p.sport != 53 {
+			cands = append(cands, f)
+		}
+	}
+	if len(cands) == 0 || !st.w.real {
+		return
+	}
+	f := cands[T.Choose(len(cands))]
+	src, dst, proto := st.tuple(f)
+	key := bpfTuplesKeyFromAddrPorts(src, dst, proto)
+	if !st.w.FlowMapsToKernel() {
+		return
+	}
+	st.gen.core.RetainUdpConnStateTuples([]bpfTuplesKey{key})
+	if err := st.gen.core.ReleaseUdpConnStateTuples([]bpfTuplesKey{key}); err != nil {
+		st.s.Failf("handover-mismatch", "ReleaseUdpConnStateTuples(%v->%v): %v", src, dst, err)
+		return
+	}
+	if !st.w.FlowMapsFromKernel() {
+		return
+	}
+	f.tracked = false
+	st.s.SeqStep("janitor", fmt.Sprintf("flow%d", f.id), true)
+}
+
+// ---- flows ----
+
+func (st *c03State) genFlow(T *verifsim.Tape, id int) *c03Flow {
+	bd := ksCollect(st.gen.ref)
+	f := &c03Flow{id: id}
+	f.kind = T.Pick(5, 5, 1, 1)
+	f.l2 = !T.Chance(1, 4)
+	p := genPacket(T, st.gen.ref, bd, st.binds)
+	p.wan = f.kind == 1 || f.kind == 2
+	p.sport = uint16(20000 + id*17 + T.Choose(8)) // distinct tuples
+	if T.Chance(1, 8) {
+		p.dport = 53
+	}
+	if p.dport == 0 {
+		p.dport = 4443
+	}
+	if f.kind >= 2 && p.dport == 53 {
+		p.dport = 5353 // DNS datagrams are stateless: no WAN-originated tracking to speak of
+	}
+	if p.sport == 53 {
+		p.sport = 20053
+	}
+	p.hasMac = f.l2
+	if !f.l2 {
+		p.mac = [6]byte{}
+	} else if p.mac == ([6]byte{}) {
+		p.mac = [6]byte{0xaa, 0xbb, 0xcc, 0, 0, 9}
+	}
+	if !p.wan {
+		p.pname = ""
+	}
+	if len(p.pname) > 15 {
+		p.pname = p.pname[:15]
+	}
+	f.p = *p
+	if f.p.v6() {
+		ne := T.Pick(5, 2, 1)
+		// a SYN+ACK long enough for the direct-access path is rare on purpose (recorded defect "synack-long-frame")
+		shortOnly := f.kind >= 2 && f.p.tcp && (!T.Chance(1, 300) || ksSkip("synackpad"))
+		for i := 0; i < ne; i++ {
+			f.ext = append(f.ext, []uint8{0, 60, 43}[T.Choose(3)])
+			l := []int{8, 16, 88}[T.Pick(3, 2, 1)]
+			if shortOnly && l > 16 {
+				l = 16
+			}
+			f.extLen = append(f.extLen, l)
+		}
+	} else if T.Chance(1, 6) {
+		f.ipOpts = 4 * (1 + T.Choose(3))
+	}
+	if f.kind == 1 {
+		switch T.Pick(7, 1, 1, 1) {
+		case 0:
+			f.cookie = uint64(1000 + id)
+			f.pid = uint32(3000 + id)
+			if f.p.pname == "" {
+				f.p.pname = "curl"
+			}
+		case 1: // unknown process
+			f.cookie = 0
+			f.p.pname = ""
+		case 2:
+			f.daeOwned = 1
+			f.cookie = uint64(1000 + id)
+			f.pid = c03DaePid
+			f.p.pname = "dae"
+		case 3:
+			if st.param.DaeSocketMark != 0 {
+				f.daeOwned = 2
+			}
+			f.p.pname = ""
+		}
+	}
+	if f.kind == 2 {
+		f.p.pname = "" // no process registered for the local service's socket
+	}
+	if f.kind == 0 && !f.p.tcp {
+		f.udpSock = uint8(T.Pick(8, 1, 1))
+		if f.udpSock == 1 || (f.udpSock == 2 && st.param.DaeSocketMark == 0) {
+			f.free = true // a local socket answers for this tuple (dae's own cannot be told apart without a socket mark): statement silent
+		}
+	}
+	pad := func() int {
+		switch T.Pick(1, 3, 1) {
+		case 0:
+			return 0
+		case 1:
+			return 100 + T.Choose(60)
+		}
+		return 1200
+	}
+	synPad := func() int {
+		if T.Chance(1, 8) {
+			return 120 // SYN carrying data (TCP fast open)
+		}
+		return 0
+	}
+	synAckPad := func() int {
+		if T.Chance(1, 300) && !ksSkip("synackpad") {
+			return 120 // rare on purpose: recorded defect "synack-long-frame"
+		}
+		return 0
+	}
+	inbound := f.kind >= 2
+	if f.p.tcp {
+		if inbound {
+			f.script = append(f.script, c03Step{syn: true, reverse: true, pad: synPad()}, c03Step{syn: true, ack: true, pad: synAckPad()})
+		} else {
+			f.script = append(f.script, c03Step{syn: true, pad: synPad()})
+		}
+		n := T.Pick(1, 3, 3, 2)
+		for i := 0; i < n; i++ {
+			f.script = append(f.script, c03Step{ack: true, pad: pad(), reverse: inbound && T.Chance(1, 3)})
+		}
+		switch T.Pick(2, 2, 1, 2) {
+		case 1:
+			f.script = append(f.script, c03Step{ack: true, fin: true}, c03Step{ack: true, pad: pad()})
+		case 2:
+			f.script = append(f.script, c03Step{rst: true})
+		case 3: // connection closes and the same tuple is reused
+			f.script = append(f.script, c03Step{ack: true, fin: true})
+			if !inbound {
+				f.script = append(f.script, c03Step{syn: true}, c03Step{ack: true, pad: pad()})
+			}
+		}
+	} else {
+		if inbound {
+			f.script = append(f.script, c03Step{reverse: true, pad: pad()})
+		}
+		n := 2 + T.Pick(2, 3, 2, 1)
+		for i := 0; i < n; i++ {
+			f.script = append(f.script, c03Step{pad: pad(), reverse: inbound && T.Chance(1, 3)})
+		}
+	}
+	return f
+}
+
+func ksProto(v6 bool) uint32 {
+	if v6 {
+		return 0xdd86 // htons(ETH_P_IPV6) as stored in __sk_buff.protocol
+	}
+	return 0x0008
+}
+
+// buildFrame renders the logical packet (optionally reversed) as wire bytes.
+func (st *c03State) buildFrame(f *c03Flow, stp c03Step) []byte {
+	p := f.p
+	src, dst, sport, dport := p.src, p.dst, p.sport, p.dport
+	smac, dmac := p.mac, st.gwMac
+	if stp.reverse {
+		src, dst, sport, dport = dst, src, dport, sport
+		smac, dmac = dmac, smac
+	}
+	var b bytes.Buffer
+	if f.l2 {
+		b.Write(dmac[:])
+		b.Write(smac[:])
+		if p.v6() {
+			b.Write([]byte{0x86, 0xdd})
+		} else {
+			b.Write([]byte{0x08, 0x00})
+		}
+	}
+	var l4 bytes.Buffer
+	if p.tcp {
+		h := make([]byte, 20)
+		binary.BigEndian.PutUint16(h[0:], sport)
+		binary.BigEndian.PutUint16(h[2:], dport)
+		binary.BigEndian.PutUint32(h[4:], 1000+uint32(f.pos))
+		h[12] = 5 << 4
+		var fl byte
+		if stp.fin {
+			fl |= 0x01
+		}
+		if stp.syn {
+			fl |= 0x02
+		}
+		if stp.rst {
+			fl |= 0x04
+		}
+		if stp.ack {
+			fl |= 0x10
+		}
+		h[13] = fl
+		binary.BigEndian.PutUint16(h[14:], 65535)
+		l4.Write(h)
+	} else {
+		h := make([]byte, 8)
+		binary.BigEndian.PutUint16(h[0:], sport)
+		binary.BigEndian.PutUint16(h[2:], dport)
+		binary.BigEndian.PutUint16(h[4:], uint16(8+stp.pad))
+		l4.Write(h)
+	}
+	for i := 0; i < stp.pad; i++ {
+		l4.WriteByte(byte(0x41 + i%23))
+	}
+	l4proto := byte(unix.IPPROTO_UDP)
+	if p.tcp {
+		l4proto = unix.IPPROTO_TCP
+	}
+	if p.v6() {
+		var exts bytes.Buffer
+		next := l4proto
+		// build chain back to front
+		type eh struct {
+			t uint8
+			l int
+		}
+		var chain []eh
+		for i := range f.ext {
+			chain = append(chain, eh{f.ext[i], f.extLen[i]})
+		}
+		bodies := make([][]byte, len(chain))
+		for i := len(chain) - 1; i >= 0; i-- {
+			e := make([]byte, chain[i].l)
+			e[0] = next
+			e[1] = byte(chain[i].l/8 - 1)
+			bodies[i] = e
+			next = chain[i].t
+		}
+		for _, e := range bodies {
+			exts.Write(e)
+		}
+		h := make([]byte, 40)
+		tc := p.dscp << 2
+		h[0] = 0x60 | tc>>4
+		h[1] = tc << 4
+		binary.BigEndian.PutUint16(h[4:], uint16(exts.Len()+l4.Len()))
+		h[6] = next
+		h[7] = 64
+		s16, d16 := src.As16(), dst.As16()
+		copy(h[8:], s16[:])
+		copy(h[24:], d16[:])
+		b.Write(h)
+		b.Write(exts.Bytes())
+	} else {
+		ihl := 5 + f.ipOpts/4
+		h := make([]byte, 20+f.ipOpts)
+		h[0] = 0x40 | byte(ihl)
+		h[1] = p.dscp << 2
+		binary.BigEndian.PutUint16(h[2:], uint16(len(h)+l4.Len()))
+		h[6] = 0x40 // DF
+		h[8] = 64
+		h[9] = l4proto
+		s4, d4 := src.As4(), dst.As4()
+		copy(h[12:], s4[:])
+		copy(h[16:], d4[:])
+		for i := 20; i < len(h); i++ {
+			h[i] = 1 // NOP options
+		}
+		b.Write(h)
+	}
+	b.Write(l4.Bytes())
+	return b.Bytes()
+}
+
+type c03Outcome struct {
+	fast, slow *ksRunResult
+}
+
+// runBoth executes the frame twice from the same pre-state: once letting the
+// direct-access path run, once forcing the byte-load path (pull failure), and
+// demands identical observable results.
+func (st *c03State) runBoth(prog *ksProgInfo, skb *ksSkb, what string, synack bool) *ksRunResult {
+	s, w := st.s, st.w
+	if w.simErr(w.c.Snapshot()) {
+		return nil
+	}
+	a := *skb
+	a.PullFail = false
+	fast, err := w.c.Run(prog, &a)
+	if w.simErr(err) {
+		return nil
+	}
+	if w.simErr(w.c.Restore()) {
+		return nil
+	}
+	b := *skb
+	b.PullFail = true
+	slow, err := w.c.Run(prog, &b)
+	if w.simErr(err) {
+		return nil
+	}
+	if fast.NLoad == 0 && fast.PullFailed == 0 {
+		s.Probe("kern.fast-parse")
+	}
+	if slow.NLoad > 0 {
+		s.Probe("kern.slow-parse")
+	}
+	if fast.NLoad > 0 && fast.PullFailed == 0 {
+		s.Probe("kern.fast-then-slow")
+	}
+	for _, r := range []*ksRunResult{fast, slow} {
+		if r.SkAcquired != r.SkReleased {
+			s.Failf("helper-misuse", "%s: %d socket references acquired, %d released by %s", what, r.SkAcquired, r.SkReleased, prog.Name)
+			return nil
+		}
+	}
+	if fast.Rc != slow.Rc || fast.Mark != slow.Mark || fast.Cb != slow.Cb || fast.RedirectKind != slow.RedirectKind ||
+		fast.RedirectIfindex != slow.RedirectIfindex || fast.RedirectFlags != slow.RedirectFlags || fast.PktType != slow.PktType ||
+		!bytes.Equal(fast.Pkt, slow.Pkt) || fast.Digest != slow.Digest {
+		rule := "path-dependence"
+		if synack && len(skb.Pkt) >= 128 {
+			// recorded defect shape: a TCP segment with SYN and ACK that is long enough for the
+			// direct-access path (bpf_skb_pull_data(128) succeeds)
+			rule += "/synack-long-frame"
+		}
+		s.Failf(rule, "%s: %s (%s, %d bytes): direct-access path gave rc=%d mark=%#x cb=%v redirect=%d/%d maps=%016x, byte-load path gave rc=%d mark=%#x cb=%v redirect=%d/%d maps=%016x (packet bytes equal: %v)\nframe: %x",
+			rule, what, prog.Name, len(skb.Pkt), fast.Rc, fast.Mark, fast.Cb, fast.RedirectKind, fast.RedirectIfindex, fast.Digest,
+			slow.Rc, slow.Mark, slow.Cb, slow.RedirectKind, slow.RedirectIfindex, slow.Digest, bytes.Equal(fast.Pkt, slow.Pkt), skb.Pkt)
+		return nil
+	}
+	return slow
+}
+
+func (st *c03State) progFor(f *c03Flow, reverse bool) *ksProgInfo {
+	var name string
+	switch {
+	case f.kind == 0:
+		name = "tproxy_lan_ingress"
+	case f.kind == 1:
+		name = "tproxy_wan_egress"
+	case f.kind == 2 && reverse:
+		name = "tproxy_wan_ingress"
+	case f.kind == 2:
+		name = "tproxy_wan_egress"
+	case f.kind == 3 && reverse:
+		name = "tproxy_lan_egress"
+	default:
+		name = "tproxy_lan_ingress"
+	}
+	if f.l2 {
+		name += "_l2"
+	} else {
+		name += "_l3"
+	}
+	p := st.w.c.Progs[name]
+	if p == nil {
+		ksFatal("program %s not found in tproxy.c", name)
+	}
+	return p
+}
+
+func (st *c03State) skbFor(f *c03Flow, stp c03Step, frame []byte) *ksSkb {
+	skb := &ksSkb{Pkt: frame, Protocol: ksProto(f.p.v6()), Headlen: uint32(len(frame)), StoreFailAt: -1}
+	if st.s.T.Chance(1, 4) {
+		skb.LinAfterPull = 128
+	}
+	if st.s.T.Chance(1, 4) && len(frame) > 54 {
+		skb.Headlen = 54
+	}
+	lanSide := f.kind == 0 || f.kind == 3
+	if lanSide {
+		skb.Ifindex = c03LanIf
+		if !stp.reverse {
+			skb.IngressIfindex = c03LanIf
+		} else {
+			skb.IngressIfindex = c03WanIf // forwarded from WAN towards the LAN host
+		}
+	} else {
+		skb.Ifindex = c03WanIf
+		if stp.reverse {
+			skb.IngressIfindex = c03WanIf
+		}
+	}
+	skb.UdpLookup = f.udpSock
+	skb.Cookie = f.cookie
+	if f.daeOwned == 2 {
+		skb.Mark = st.param.DaeSocketMark
+	}
+	return skb
+}
+
+func (st *c03State) healthUp(d refDecision, p *refPacket) (up bool, free bool) {
+	if p.dport == 53 {
+		return true, true // statement silent on DNS vs. health bits
+	}
+	dom := 0
+	if !p.tcp {
+		dom = 2
+	}
+	fam := 0
+	if p.v6() {
+		fam = 1
+	}
+	return st.alive[[3]int{int(d.outbound), dom, fam}], false
+}
+
+func (st *c03State) sendNext(f *c03Flow) {
+	s, w := st.s, st.w
+	stp := f.script[f.pos]
+	f.pos++
+	frame := st.buildFrame(f, stp)
+	prog := st.progFor(f, stp.reverse)
+	skb := st.skbFor(f, stp, frame)
+	what := fmt.Sprintf("flow%d kind%d %s step%d syn=%v ack=%v fin=%v rst=%v rev=%v", f.id, f.kind, &f.p, f.pos-1, stp.syn, stp.ack, stp.fin, stp.rst, stp.reverse)
+	s.Notef("%s via %s len=%d", what, prog.Name, len(frame))
+	res := st.runBoth(prog, skb, what, f.p.tcp && stp.syn && stp.ack)
+	if res == nil {
+		return
+	}
+	cls := fmt.Sprintf("k%d tcp=%v v6=%v rev=%v rc=%d", f.kind, f.p.tcp, f.p.v6(), stp.reverse, res.Rc)
+	s.SeqStep("pkt", cls, true)
+	if s.LogOn {
+		if ents, err := w.c.MapDump(w.c.Maps["conn_state_map"]); err == nil {
+			for _, e := range ents {
+				s.Notef("   conn_state %x = %x", e.K, e.V)
+			}
+		}
+	}
+	if res.UpdFailFired > 0 {
+		s.Fault("map-update-failed")
+	}
+
+	// --- reference model ---
+	if f.tracked {
+		to := uint64(120e9)
+		if f.closing {
+			to = 10e9
+		}
+		if st.now-f.last > to {
+			f.tracked = false
+			f.closing = false
+			s.Probe("kern.idle-expiry")
+		}
+	}
+	untouched := func() bool {
+		return res.Rc == w.c.ActOK && bytes.Equal(res.Pkt, frame) && res.Mark == skb.Mark && res.RedirectKind == 0
+	}
+	if f.kind >= 2 {
+		// WAN-originated connection: the inbound frame starts tracking (origin WAN) unless the tuple
+		// is already tracked as locally originated; replies of a WAN-originated one pass untouched
+		if stp.reverse {
+			if !f.tracked {
+				if !f.p.tcp || (stp.syn && !stp.ack) {
+					f.tracked, f.closing, f.originIn, f.tainted = true, false, true, false
+				}
+			}
+			if f.tracked {
+				f.last = st.now
+				if f.p.tcp && (stp.fin || stp.rst) {
+					f.closing = true
+				}
+				if st.faulty && (res.UpdFailFired > 0 || !st.hasState(f, true)) {
+					f.tainted = true // the inbound direction could not be recorded (injected map fault)
+				}
+			}
+			return
+		}
+		if f.tracked && f.originIn {
+			if f.tainted {
+				return
+			}
+			if st.faulty && !st.hasState(f, true) {
+				f.tainted = true
+				return
+			}
+			f.last = st.now
+			if f.p.tcp && (stp.fin || stp.rst) {
+				f.closing = true
+			}
+			if !untouched() {
+				s.Failf("verdict-inbound-reply", "%s: reply of a WAN-originated connection was not passed untouched: rc=%d mark=%#x redirect=%d bytes-unchanged=%v", what, res.Rc, res.Mark, res.RedirectKind, bytes.Equal(res.Pkt, frame))
+			}
+			return
+		}
+		// not tracked as WAN-originated: an ordinary locally originated packet
+	}
+	if f.daeOwned != 0 {
+		if !untouched() {
+			s.Failf("verdict-dae-own", "%s: a packet sent by dae itself (owned=%d) was not let through untouched: rc=%d mark=%#x redirect=%d", what, f.daeOwned, res.Rc, res.Mark, res.RedirectKind)
+		}
+		return
+	}
+	if f.free {
+		return
+	}
+	stateless := !f.p.tcp && (f.p.dport == 53 || f.p.sport == 53)
+	var d refDecision
+	first := false
+	switch {
+	case stateless:
+		d = st.route(f)
+		first = true
+	case f.p.tcp:
+		if stp.syn && !stp.ack {
+			f.tracked, f.closing, f.tainted, f.originIn = true, false, false, false
+			f.decision = st.route(f)
+			first = true
+		} else if !f.tracked || f.tainted {
+			return // statement silent: mid-stream segment of a flow that is not (or could not be) tracked
+		}
+		d = f.decision
+	default:
+		if !f.tracked {
+			f.tracked, f.tainted, f.originIn = true, false, false
+			f.decision = st.route(f)
+			first = true
+		}
+		d = f.decision
+	}
+	if !stateless {
+		f.last = st.now
+		if f.p.tcp && (stp.fin || stp.rst) {
+			f.closing = true
+		}
+	}
+	relaxed := false
+	if st.faulty {
+		if res.UpdFailFired > 0 || f.tainted {
+			relaxed = true
+		}
+		if !stateless && !st.hasState(f, false) {
+			f.tainted = true
+			relaxed = true
+			s.Probe("kern.map-full")
+		}
+	}
+	lan := f.kind == 0 || f.kind == 3
+	// expected verdict class
+	const (
+		vPass = iota
+		vDrop
+		vRedirect
+	)
+	expect := func(d refDecision) (int, uint8, bool) {
+		expOut := d.outbound
+		if f.p.dport == 53 && !d.must {
+			expOut = uint8(consts.OutboundControlPlaneRouting)
+		}
+		want, silent := vRedirect, false
+		switch {
+		case expOut == uint8(consts.OutboundDirect):
+			want = vPass
+			if !lan && d.mark != 0 {
+				want = vRedirect // locally originated traffic that needs a mark is handed to dae
+			}
+		case expOut == uint8(consts.OutboundBlock):
+			want = vDrop
+		default:
+			if expOut != uint8(consts.OutboundControlPlaneRouting) {
+				up, sil := st.healthUp(d, &f.p)
+				if sil {
+					silent = true // statement silent on DNS traffic vs. health bits: drop or redirect
+				} else if !up {
+					want = vDrop
+					s.Probe("kern.health-down")
+				}
+			}
+		}
+		return want, expOut, silent
+	}
+	want, expOut, silent := expect(d)
+	if silent && res.Rc == w.c.ActShot {
+		want = vDrop
+	}
+	got := -1
+	switch {
+	case res.Rc == w.c.ActOK && res.RedirectKind == 0:
+		got = vPass
+	case res.Rc == w.c.ActShot:
+		got = vDrop
+	case res.Rc == w.c.ActRedirect && res.RedirectKind != 0:
+		got = vRedirect
+	}
+	tag := ""
+	if !first && st.changed && !lan && !f.p.tcp && d.outbound == uint8(consts.OutboundDirect) && d.mark == 0 && !d.must {
+		tag = "/wan-udp-direct-recomputed"
+	}
+	desc := func() string {
+		return fmt.Sprintf("%s\nfirst-packet decision (rules as written): %v first=%v; verdict rc=%d mark=%#x redirect kind=%d ifindex=%d cb=%v; rules now:\n%s", what, d, first, res.Rc, res.Mark, res.RedirectKind, res.RedirectIfindex, res.Cb, st.gen.text)
+	}
+	if got != want && relaxed {
+		if got == vDrop || (got == vPass && d.outbound == uint8(consts.OutboundDirect) && d.mark == 0) {
+			return // fail-closed outcomes under an injected map fault
+		}
+		// the flow's record could not be kept: a fresh decision under the current rules is the other legal reading
+		alt := st.route(f)
+		if w2, e2, _ := expect(alt); w2 == got {
+			d, want, expOut = alt, w2, e2
+		}
+	}
+	if got != want {
+		rule := map[int]string{vPass: "verdict-direct", vDrop: "verdict-drop", vRedirect: "verdict-redirect"}[want]
+		if !first {
+			rule = "sticky-decision" + tag
+		}
+		rule += f.shape
+		s.Failf(rule, "%s: expected %s, got %s\n%s", rule, []string{"pass", "drop", "redirect to dae"}[want], map[int]string{vPass: "pass", vDrop: "drop", vRedirect: "redirect", -1: "other"}[got], desc())
+		return
+	}
+	switch want {
+	case vPass:
+		if !bytes.Equal(res.Pkt, frame) {
+			s.Failf("verdict-direct", "direct traffic was modified\n%s", desc())
+			return
+		}
+		wantMark := skb.Mark
+		if lan {
+			wantMark = d.mark
+		}
+		if res.Mark != wantMark {
+			s.Failf("verdict-direct", "direct traffic: skb->mark=%#x, want %#x\n%s", res.Mark, wantMark, desc())
+		}
+	case vRedirect:
+		s.Probe("kern.redirect")
+		if res.RedirectIfindex != st.param.Dae0Ifindex {
+			s.Failf("verdict-redirect", "redirected to ifindex %d, dae0 is %d\n%s", res.RedirectIfindex, st.param.Dae0Ifindex, desc())
+			return
+		}
+		st.checkHandover(f, d, expOut, res, desc, relaxed)
+		if s.Failed() {
+			return
+		}
+		st.deliverToDae(f, res, what)
+	}
+}
+
+// hasState: does the datapath hold a conn_state entry for the flow (reply=true: under the reply tuple's key)?
+func (st *c03State) hasState(f *c03Flow, _ bool) bool {
+	src, dst, proto := st.tuple(f)
+	key := bpfTuplesKeyFromAddrPorts(src, dst, proto)
+	_, ok, err := st.w.c.MapGet(st.w.c.Maps["conn_state_map"], ksNative(key))
+	if st.w.simErr(err) {
+		return true
+	}
+	return ok
+}
+
+func (st *c03State) checkHandover(f *c03Flow, d refDecision, expOut uint8, res *ksRunResult, desc func() string, relaxed bool) {
+	s, w := st.s, st.w
+	src, dst, proto := st.tuple(f)
+	var got *bpfRoutingResult
+	var err error
+	if w.real {
+		if !w.FlowMapsToKernel() {
+			return
+		}
+		got, err = st.gen.core.RetrieveRoutingResult(src, dst, proto)
+	} else {
+		got, err = st.fallbackRetrieve(src, dst, proto)
+	}
+	if err != nil {
+		rule := "handover-mismatch"
+		if f.kind == 0 && !f.p.tcp && f.p.dport == 53 && res.UpdFailFired > 0 {
+			// recorded defect shape: LAN ingress ignores a failed routing_handoff_map update, and a
+			// stateless DNS datagram has no other record
+			rule += "/lan-dns-handoff-update-ignored"
+		}
+		s.Failf(rule, "%s: flow redirected to dae but RetrieveRoutingResult(%v, %v, %d) fails: %v\n%s", rule, src, dst, proto, err, desc())
+		return
+	}
+	if !st.hasState(f, false) || (!f.p.tcp && f.p.dport == 53) {
+		s.Probe("kern.handoff-fallback")
+	}
+	var wantMac [6]uint8
+	if f.l2 {
+		wantMac = f.p.mac
+	}
+	var wantPname [16]uint8
+	wantPid := uint32(0)
+	if f.kind == 1 && f.cookie != 0 {
+		copy(wantPname[:], f.p.pname)
+		wantPid = f.pid
+	}
+	mustB := uint8(0)
+	if d.must {
+		mustB = 1
+	}
+	if relaxed {
+		alt := st.route(f)
+		altOut := alt.outbound
+		if f.p.dport == 53 && !alt.must {
+			altOut = uint8(consts.OutboundControlPlaneRouting)
+		}
+		if got.Outbound == altOut && got.Mark == alt.mark && (got.Must != 0) == alt.must {
+			d, expOut, mustB = alt, altOut, got.Must
+		}
+	}
+	if got.Outbound != expOut || got.Mark != d.mark || got.Must != mustB || got.Dscp != f.p.dscp || got.Mac != wantMac || got.Pname != wantPname || got.Pid != wantPid {
+		s.Failf("handover-mismatch"+f.shape, "handover-mismatch"+f.shape+": control plane recovered (outbound=%d mark=%#x must=%d dscp=%d mac=%x pname=%q pid=%d), the decision was (outbound=%d mark=%#x must=%d dscp=%d mac=%x pname=%q pid=%d)\n%s",
+			got.Outbound, got.Mark, got.Must, got.Dscp, got.Mac, string(bytes.TrimRight(got.Pname[:], "\x00")), got.Pid,
+			expOut, d.mark, mustB, f.p.dscp, wantMac, string(bytes.TrimRight(wantPname[:], "\x00")), wantPid, desc())
+	}
+}
+
+// fallbackRetrieve: two-step lookup over the simulator's bytes, decoded with the Go structs (no kernel).
+func (st *c03State) fallbackRetrieve(src, dst netip.AddrPort, proto uint8) (*bpfRoutingResult, error) {
+	key := ksNative(bpfTuplesKeyFromAddrPorts(src, dst, proto))
+	if v, ok, _ := st.w.c.MapGet(st.w.c.Maps["conn_state_map"], key); ok {
+		var cs bpfConnState
+		if len(v) != binary.Size(cs) {
+			return nil, fmt.Errorf("conn_state value has %d bytes, Go struct %d", len(v), binary.Size(cs))
+		}
+		binary.Read(bytes.NewReader(v), binary.NativeEndian, &cs)
+		if cs.Meta.Data.HasRouting != 0 {
+			r := routingResultFromConnState(cs.Meta.Data.Mark, cs.Meta.Data.Must, cs.Meta.Data.Outbound, cs.Mac, cs.Meta.Data.Dscp, cs.Pname, cs.Pid)
+			return &r, nil
+		}
+	}
+	v, ok, _ := st.w.c.MapGet(st.w.c.Maps["routing_handoff_map"], key)
+	if !ok {
+		return nil, fmt.Errorf("key does not exist")
+	}
+	var e bpfRoutingHandoffEntry
+	if len(v) != binary.Size(e) {
+		return nil, fmt.Errorf("routing_handoff value has %d bytes, Go struct %d", len(v), binary.Size(e))
+	}
+	binary.Read(bytes.NewReader(v), binary.NativeEndian, &e)
+	if routingHandoffExpired(st.now, e.LastSeenNs) {
+		return nil, fmt.Errorf("key does not exist (expired)")
+	}
+	r := routingResultFromConnState(e.Result.Mark, e.Result.Must, e.Result.Outbound, e.Result.Mac, e.Result.Dscp, e.Result.Pname, e.Result.Pid)
+	return &r, nil
+}
+
+// deliverToDae feeds the redirected skb to the program on the other end (dae0peer ingress):
+// "redirected to dae" only holds if that hook lets it in.
+func (st *c03State) deliverToDae(f *c03Flow, res *ksRunResult, what string) {
+	w := st.w
+	prog := w.c.Progs["tproxy_dae0peer_ingress"]
+	if prog == nil {
+		return
+	}
+	skb := &ksSkb{Pkt: res.Pkt, Protocol: ksProto(f.p.v6()), Headlen: uint32(len(res.Pkt)), Ifindex: c03Dae0If + 1, IngressIfindex: c03Dae0If + 1,
+		Mark: res.Mark, Cb: res.Cb, PktType: res.PktType, Listener: true, StoreFailAt: -1}
+	r := st.runBoth(prog, skb, what+" -> dae0peer", false)
+	if r == nil {
+		return
+	}
+	if r.Rc != w.c.ActOK {
+		st.s.Failf("verdict-redirect", "%s: the redirected packet is rejected by tproxy_dae0peer_ingress (rc=%d, cb=%v)", what, r.Rc, res.Cb)
+	}
+}
+
+// illegalFrame: fragments, truncated frames, ihl<5, extension chains ending in NONE on a
+// throw-away tuple; only path equivalence, memory safety and helper discipline are demanded.
+func (st *c03State) illegalFrame(T *verifsim.Tape) {
+	if len(st.flows) == 0 {
+		return
+	}
+	base := st.flows[T.Choose(len(st.flows))]
+	f := *base
+	f.p.sport = uint16(61000 + T.Choose(50))
+	f.id = 99
+	f.daeOwned = 0
+	f.cookie = 0
+	stp := c03Step{syn: T.Chance(1, 2), ack: T.Chance(1, 2), pad: []int{0, 90, 130, 300}[T.Choose(4)], reverse: false}
+	if stp.syn && stp.ack && stp.pad > 0 && (!T.Chance(1, 200) || ksSkip("synackpad")) {
+		stp.pad = 0 // long SYN+ACK segments are rare on purpose: recorded defect "synack-long-frame"
+	}
+	frame := st.buildFrame(&f, stp)
+	if f.p.tcp && stp.syn && stp.ack && len(frame) >= 128 && (!T.Chance(1, 200) || ksSkip("synackpad")) {
+		stp.ack = false
+		frame = st.buildFrame(&f, stp)
+	}
+	l3 := 0
+	if f.l2 {
+		l3 = 14
+	}
+	kind := T.Choose(5)
+	switch kind {
+	case 0: // truncated
+		cuts := []int{l3 + 1, l3 + 19, l3 + 20, l3 + 27, l3 + 39, l3 + 40, l3 + 47, l3 + 59, len(frame) - 1, 129, 128, 127}
+		c := cuts[T.Choose(len(cuts))]
+		if c > 0 && c < len(frame) {
+			frame = frame[:c]
+		}
+	case 1: // ihl < 5
+		if !f.p.v6() {
+			frame[l3] = 0x40 | byte(T.Choose(5))
+		}
+	case 2: // non-initial / first fragment
+		if !f.p.v6() {
+			binary.BigEndian.PutUint16(frame[l3+6:], []uint16{0x2000, 0x00b9, 0x20b9}[T.Choose(3)])
+		} else {
+			fr := make([]byte, 8)
+			fr[0] = frame[l3+6]
+			binary.BigEndian.PutUint16(fr[2:], []uint16{0x0001, 0x00b8, 0x00b9}[T.Choose(3)])
+			frame[l3+6] = 44
+			frame = append(append(append([]byte(nil), frame[:l3+40]...), fr...), frame[l3+40:]...)
+		}
+	case 3: // extension chain ends in NONE
+		if f.p.v6() {
+			if len(f.ext) > 0 {
+				frame[l3+40] = 59
+			} else {
+				frame[l3+6] = 59
+			}
+		}
+	case 4: // unknown L4 protocol
+		if f.p.v6() && len(f.ext) == 0 {
+			frame[l3+6] = 132
+		} else if !f.p.v6() {
+			frame[l3+9] = 132
+		}
+	}
+	names := []string{"tproxy_lan_ingress", "tproxy_wan_egress", "tproxy_wan_ingress", "tproxy_lan_egress"}
+	name := names[T.Choose(4)]
+	if f.l2 {
+		name += "_l2"
+	} else {
+		name += "_l3"
+	}
+	if f.l2 && T.Chance(1, 6) {
+		name = "tproxy_dae0_ingress"
+	}
+	prog := st.w.c.Progs[name]
+	if prog == nil {
+		return
+	}
+	skb := st.skbFor(&f, stp, frame)
+	if name == "tproxy_wan_egress_l2" || name == "tproxy_wan_egress_l3" {
+		skb.IngressIfindex = 0
+	}
+	res := st.runBoth(prog, skb, fmt.Sprintf("illegal-frame kind%d", kind), f.p.tcp && stp.syn && stp.ack)
+	if res != nil {
+		st.s.SeqStep("illegal", fmt.Sprintf("k%d %s rc=%d", kind, name, res.Rc), true)
+		st.s.Probe("kern.illegal-frame")
+	}
+}
